@@ -515,13 +515,25 @@ fn parse_with(
     mut tokens: impl Iterator<Item = Spanned<TokenRes>>,
 ) -> Result<(Vec<TopLevel>, Vec<SExprMetaData>)> {
     use Token::*;
+    // The configuration is processed by recursion over its nested lists.
+    // Limit the nesting so that malformed input cannot exhaust the stack;
+    // this is far deeper than a real configuration needs.
+    const MAX_LIST_NESTING: usize = 128;
     let mut stack = vec![Spanned::new(vec![], Span::default())];
     let mut metadata: Vec<SExprMetaData> = vec![];
     loop {
         match tokens.next() {
             None => break,
             Some(Spanned { t, span }) => match t.map_err(|s| ParseError::new(span.clone(), s))? {
-                Open => stack.push(Spanned::new(vec![], span)),
+                Open => {
+                    if stack.len() > MAX_LIST_NESTING {
+                        return Err(ParseError::new(
+                            span,
+                            format!("Lists are nested too deeply; the limit is {MAX_LIST_NESTING}"),
+                        ));
+                    }
+                    stack.push(Spanned::new(vec![], span))
+                }
                 Close => {
                     let Spanned {
                         t: exprs,
